@@ -175,6 +175,13 @@ class Header:
 
                 i += 1
 
+        # An output rank that no loop makes available can only be reached by
+        # projecting into the output
+        if i < len(ranks):
+            raise ValueError(
+                "Cannot project into the output tensor. Add " +
+                ranks[i] + " to the loop order")
+
         for tensor in self.program.get_equation().get_tensors():
             # Skip the output
             if tensor.get_is_output():
